@@ -74,8 +74,25 @@ impl CaoLangAllocator {
                 (*self.runtime).gc();
             }
         }
-        let allocated = s + self.allocated.fetch_add(s, Ordering::Relaxed);
-        if allocated > self.limit.load(Ordering::Relaxed) {
+        let limit = self.limit.load(Ordering::Relaxed);
+        let mut allocated = s + self.allocated.load(Ordering::Relaxed);
+        if (allocated > self.next_gc.load(Ordering::Relaxed) || allocated > limit)
+            && !self.runtime.is_null()
+        {
+            // collect when the threshold is reached, and always before giving up
+            unsafe {
+                (*self.runtime).gc();
+            }
+            let before = allocated;
+            allocated = s + self.allocated.load(Ordering::Relaxed);
+            // collect again once twice the surviving data is in use (but not constantly while
+            // little memory is in use)
+            self.next_gc
+                .store((allocated * 2).max(limit / 4), Ordering::Relaxed);
+            debug!("GC done. Allocated before: {before}. Allocated now: {allocated}");
+        }
+        if allocated > limit {
+            // nothing has been charged for a refused request
             #[cfg(feature = "verif-hooks")]
             crate::verif::emit(|| crate::verif::Event::Alloc {
                 charge: s,
@@ -91,16 +108,7 @@ impl CaoLangAllocator {
             });
             return Err(AllocError::OutOfMemory);
         }
-        if allocated > self.next_gc.load(Ordering::Relaxed) {
-            self.next_gc.store(allocated * 2, Ordering::Relaxed);
-            unsafe {
-                (*self.runtime).gc();
-            }
-            debug!(
-                "GC done. Allocated before: {allocated}. Allocated now: {}",
-                self.allocated.load(Ordering::Relaxed)
-            );
-        }
+        self.allocated.fetch_add(s, Ordering::Relaxed);
         let ptr = alloc(l);
         #[cfg(feature = "verif-hooks")]
         crate::verif::emit(|| crate::verif::Event::Alloc {
